@@ -147,8 +147,21 @@ impl<'a> Emitter<'a> {
                 }
                 fields.push(quote!(pub #fname: #ty));
             }
+        } else if let Fields::Unnamed(uf) = &st.fields {
+            // tuple struct (`struct DropGuard<F>(F);`): emitted as it is (no ghost fields / retypes)
+            let mut tys = vec![];
+            for f in uf.unnamed.iter() {
+                let mut ty = f.ty.clone();
+                let mut rw2 = TyRw { u: self.u, in_unit_ty: false };
+                rw2.visit_type_mut(&mut ty);
+                tys.push(quote!(pub #ty));
+            }
+            let (ig, _, wc) = g.split_for_impl();
+            let ts = quote!(pub struct #name #ig (#(#tys),*) #wc;);
+            self.items.push(ts.to_string());
+            return;
         } else {
-            crate::die_pub(&format!("unsupported construct: struct {} is not a named-field struct", name));
+            crate::die_pub(&format!("unsupported construct: struct {} is a unit struct", name));
         }
         for (n, t, _) in ss.ghost_fields.iter() {
             let id = Ident::new(n, proc_macro2::Span::call_site());
